@@ -390,7 +390,9 @@ func (x *Exec) callContract(s *State, f *Frame, cc *CallCtx, target *ssa.Functio
 		env.Side = nil
 		t, err := env.EvalBool(c.Expr)
 		if err != nil {
-			evalErr("call %s ensures %s: %v", spec.Name, c.Label, err)
+			// a postcondition over the callee's ghost state cannot be used
+			// by the caller: assuming less is sound
+			continue
 		}
 		for _, sd := range env.Side {
 			s.Assume(sd)
